@@ -78,7 +78,9 @@ MPool == { Say(Var("x")), Say(Var("y")), Put(Bin("plus", Var("x"), <<Var("x")>>)
            SListen(0, Idx(Var("x"), Var("y"))), SMut(0, "cut", Var("x"), Var("x"), Var("x")), SRock(0, Var("x"), <<Var("x"), Var("y")>>),
            SRoll(0, Var("x"), Var("x")), SWhile(0, Var("x"), <<Say(Var("x"))>>), SIf(0, Var("x"), <<Say(Var("y"))>>, TRUE, <<Say(Var("x"))>>),
            Say(Bin("plus", Var("y"), <<Var("y"), Var("y"), Var("x")>>)), Put(N(5), "x"), Say(Pro), STurn(0, "up", Var("x")),
-           SReturn(0, Var("y")), Say(Call("y", <<Call("y", <<Var("y")>>)>>)) }
+           SReturn(0, Var("y")), Say(Call("y", <<Call("y", <<Var("y")>>)>>)),
+           SMut(0, "cut", Var("x"), Var("y"), ENone), SMut(0, "join", Var("y"), ENone, Var("x")), SMut(0, "cast", Var("x"), Var("y"), Var("z")),
+           SAssign(0, Idx(Var("x"), Var("x")), "none", <<N(5)>>), SRoll(0, Var("x"), Var("y")) }
 MProgs(z) == { <<a, b>> : a, b \in MPool } \cup (IF Tier = "quick" THEN {} ELSE { <<a, b, d>> : a, b, d \in MPool })
 
 LintProgs(z) == UNION { Forms(e) : e \in LintRhs(z) } \cup PoeticForms \cup MProgs(z)
